@@ -13,7 +13,12 @@ def solve_linear_equation(A: np.ndarray, b: np.ndarray):
 
     """
     (posv,) = get_lapack_funcs(("posv",), (A, b))
-    _, x, _ = posv(A, b, lower=False, overwrite_a=False, overwrite_b=False)
+    _, x, info = posv(A, b, lower=False, overwrite_a=False, overwrite_b=False)
+    if info != 0:
+        raise np.linalg.LinAlgError(
+            f"LAPACK posv failed (info={info}): the normal equations are singular, "
+            "i.e. the dataset does not determine the requested force constants."
+        )
     return x
 
 
